@@ -73,6 +73,31 @@ func genC02(seed int64, tier string, emit func(run.Case)) {
 	}
 }
 
+// c02MsgClass reduces a parser error message to its leading lower-case words (no user text).
+func c02MsgClass(m string) string {
+	// strip a leading "path:line:col: " location
+	if i := strings.Index(m, ": "); i >= 0 && i < 40 && strings.Count(m[:i], ":") >= 2 {
+		m = m[i+2:]
+	}
+	var words []string
+	for _, w := range strings.Fields(m) {
+		ok := true
+		for _, c := range w {
+			if !(c >= 'a' && c <= 'z') {
+				ok = false
+			}
+		}
+		if !ok || len(words) == 5 {
+			break
+		}
+		words = append(words, w)
+	}
+	if len(words) == 0 {
+		return "other"
+	}
+	return strings.Join(words, "-")
+}
+
 // c02Index tabulates positions of text in one unit system.
 type c02Index struct {
 	text  string
@@ -215,6 +240,13 @@ func execC02(c run.Case) (res run.Result) {
 					res.Inc("vacuous_segment_touched_by_syntax_error")
 					continue
 				}
+				if bs, isBS := seg.(*d2ast.BlockString); isBS && sr.Start.Line != sr.End.Line {
+					// the value of a multi-line block string depends on the column of its
+					// opening (indentation trimming), which the slice alone does not carry
+					_ = bs
+					res.Inc("vacuous_multiline_block_string_segment")
+					continue
+				}
 				if len(seg.Children()) > 0 {
 					res.Inc("vacuous_segment_with_substitution")
 					continue
@@ -232,9 +264,13 @@ func execC02(c run.Case) (res run.Result) {
 						got = strings.Join(parts, " . ")
 					}
 					cls := "other"
-					if v := seg.ScalarString(); strings.HasPrefix(v, src) && strings.TrimLeft(v[len(src):], " \t") == "-" {
+					v := seg.ScalarString()
+					nbs := len(src) - len(strings.TrimRight(src, "\\"))
+					if strings.HasPrefix(v, src) && strings.TrimLeft(v[len(src):], " \t") == "-" {
 						cls = "range-excludes-trailing-dash"
-					} else if strings.HasSuffix(src, "\\") && !strings.HasSuffix(src, "\\\\") {
+					} else if b2, e2 := d2parser.ParseKey(src + "-"); e2 == nil && b2 != nil && len(b2.Path) == 1 && strings.TrimRight(strings.TrimSuffix(v, "-"), " \t") == strings.TrimSuffix(b2.Path[0].Unbox().ScalarString(), "-") && strings.HasSuffix(v, "-") {
+						cls = "range-excludes-trailing-dash"
+					} else if nbs%2 == 1 {
 						cls = "range-excludes-trailing-escaped-character"
 					}
 					res.Viol("C02.segment-slice-mismatch", "C02.segment-slice-mismatch:"+typ(seg)+":"+cls, fmt.Sprintf("key segment %q has range %s-%s covering %q which parses to %q (err %v)\ninput: %q", seg.ScalarString(), sr.Start.Debug(), sr.End.Debug(), src, got, perr, trunc(in.Text, 400)))
@@ -253,7 +289,7 @@ func execC02(c run.Case) (res run.Result) {
 	var pe *d2parser.ParseError
 	if errors.As(err, &pe) {
 		for _, e := range pe.Errors {
-			checkRange("error", "Error", e.Range)
+			checkRange("error", "Error["+c02MsgClass(e.Message)+"]", e.Range)
 			res.Inc("error_ranges_checked")
 		}
 	}
